@@ -29,20 +29,19 @@ func (h *UserDataHeader) ReadFrom(r io.Reader) (n int64, err error) {
 	if err != nil {
 		return
 	}
-	var id byte
-	var data []byte
-	for i := 0; i < int(length); {
+	var id, size byte
+	for i := 0; i < int(length); i += 2 + int(size) {
 		if id, err = buf.ReadByte(); err == nil {
-			length, err = buf.ReadByte()
+			size, err = buf.ReadByte()
 		}
-		if length > 0 {
-			data = make([]byte, length)
-			_, err = buf.Read(data)
+		if err != nil {
+			return
 		}
-		if err == nil {
-			header[id] = data
+		data := make([]byte, size)
+		if _, err = buf.Read(data); size > 0 && err != nil {
+			return
 		}
-		i = buf.Size()
+		header[id] = data
 	}
 	if len(header) > 0 {
 		*h = header
